@@ -17,6 +17,9 @@ from .model import AnalysisError
 from .report import Check
 
 PROPS = ['C%02d' % n for n in range(1, 21)]
+#: properties whose path sets stay enumerable with three unrolled iterations per loop
+DEEP_UNROLLING = frozenset(('C05', 'C06', 'C09', 'C10', 'C11', 'C12', 'C13', 'C14', 'C16',
+                            'C17', 'C18', 'C20'))
 
 
 def run_property(prop_id: str, tier: str, seed: int, only: str = None, root: str = None,
@@ -59,6 +62,23 @@ def _thorough_extras(check, module, prop_id, root, overlay):
             check.note('holds only under a usage assertion (assert-only): %s' % item)
     except AnalysisError as err:
         check.note('no-assert pass not completed: %s' % err)
+    # (1b) the same rules with every loop unrolled three times instead of twice, where the
+    #      path sets stay enumerable (measured; the others are named in DESIGN.md 12.6)
+    if prop_id in DEEP_UNROLLING:
+        deep = Check(prop_id, 'deep', check.seed, quiet=True)
+        try:
+            module.run(deep, Analysis(root=root, overlay=overlay, loop_bound=3))
+            base = set('%s %s' % (i.rule, i.construct) for i in check.instances if not i.ok)
+            extra = [i for i in deep.instances
+                     if not i.ok and '%s %s' % (i.rule, i.construct) not in base]
+            check.stats['deep_unrolling_instances'] = len(deep.instances)
+            check.stats['deep_unrolling_paths'] = deep.stats.get('paths_enumerated')
+            for inst in extra:
+                # a rule must hold for every unrolling: this is a violation like any other
+                check.instance(inst.rule, inst.construct + ' [3 iterations]', False,
+                               inst.where, inst.detail, inst.path)
+        except AnalysisError as err:
+            check.note('deep unrolling not completed: %s' % err)
     # (2) firing variants and silent twins, analysed in memory
     if overlay is None:
         results = run_selftest(prop_id, root)
